@@ -36,7 +36,7 @@ fn spec(t: Tier) -> Spec {
     Spec {
         id: "C02",
         level: "exploration",
-        rule: format!("every ordered forest with <= {full} nodes over leaf labels {:?} (and <= {red} nodes over {:?}) is materialised under r/ on tmpfs and walked by find_main under every configuration: follow in {{-P,-H,-L,-follow,-H -follow}} x (mindepth,maxdepth) in {{absent,0,1,2,3}}^2 (incl. min>max) x -depth on/off x -sorted on/off x 8 starting-point lists (dir, link to dir, dangling link, file, link to file, the same root twice, two roots, missing+dir); the -print0 output must equal the reference walker's visit list (sequence with -sorted, multiset + parent/child order without); diagnostics required for cycle-closing links and missing roots; non-trivial = (tree,config) whose expected visit list differs from the plain -P listing of r; fault slice: trees with one or two mode-000 directories walked by the hooks-off binary running as uid 65534",
+        rule: format!("every ordered forest with <= {full} nodes over leaf labels {:?} (and <= {red} nodes over {:?}) is materialised under r/ on tmpfs and walked by find_main under every configuration: follow in {{-P,-H,-L,-follow,-H -follow}} x (mindepth,maxdepth) in {{absent,0,1,2,3}}^2 (incl. min>max) x -depth on/off x -sorted on/off x 8 starting-point lists (dir, link to dir, dangling link, file, link to file, the same root twice, two roots, missing+dir); the -print0 output must equal the reference walker's visit list (sequence with -sorted, multiset + parent/child order without); diagnostics required for cycle-closing links and missing roots; non-trivial = (tree,config) whose expected visit list differs from the plain -P listing of r; scale slice: a chain 12 directories deep (file at every level, a link to an outside directory at level 5, a link back to the top at level 9), a directory of 300 files and 20 sub-directories, and link chains (l1 -> l2 -> l3 -> directory, k1 -> k2 -> k1), each under -P/-H/-L x mindepth in {{absent,0,3,5,11,12,13}} x maxdepth in {{absent,0,4,11,12,13}} x -depth on/off from r and lr; fault slice: trees with one or two mode-000 directories walked by the hooks-off binary running as uid 65534",
             LABELS.iter().map(|l| l.code()).collect::<Vec<_>>(), LABELS_REDUCED.iter().map(|l| l.code()).collect::<Vec<_>>()),
         bound: json!({"max_nodes_full_labels": full, "max_nodes_reduced_labels": red, "configs_per_tree": 5*25*2*2*8}),
         assumptions: vec![
@@ -402,7 +402,107 @@ fn run(ctx: &mut Ctx) {
         }
     }
     ctx.rep.count("trees_reduced_labels", seen_reduced_dupe);
+    scale_slice(ctx);
     fault_slice(ctx);
+}
+
+/// Three hand-built trees far beyond the exhaustive bound: a chain 12 directories deep (a file at
+/// every level, a link to an outside directory at level 5, a link back to the top at level 9), a wide
+/// directory (300 files, 20 sub-directories of 3 files), and chains of links (l1 -> l2 -> l3 -> a
+/// directory; k1 -> k2 -> k1). Each under -P/-H/-L x mindepth in {absent,0,3,5,11,12,13} x maxdepth in
+/// {absent,0,4,11,12,13} x -depth on/off, from r and from a link to r, -sorted.
+fn scale_slice(ctx: &mut Ctx) {
+    fn base() -> (Fs, usize) {
+        let mut fs = Fs::new();
+        let out = fs.add(0, "out", K::Dir);
+        let d = fs.add(out, "d", K::Dir);
+        fs.add(d, "g", K::File);
+        fs.add(out, "f", K::File);
+        let r = fs.add(0, "r", K::Dir);
+        fs.add(0, "lr", K::Link("r".into()));
+        (fs, r)
+    }
+    let mut trees: Vec<(&str, Fs)> = vec![];
+    {
+        let (mut fs, r) = base();
+        let mut cur = r;
+        let mut up = String::from("../");
+        for lvl in 1..=12 {
+            fs.add(cur, "f", K::File);
+            if lvl == 5 {
+                fs.add(cur, "lo", K::Link(format!("{up}out/d")));
+            }
+            if lvl == 9 {
+                fs.add(cur, "lup", K::Link(format!("{up}r")));
+            }
+            cur = fs.add(cur, "a", K::Dir);
+            up.push_str("../");
+        }
+        fs.add(cur, "leaf", K::File);
+        trees.push(("deep chain", fs));
+    }
+    {
+        let (mut fs, r) = base();
+        for i in 0..300 {
+            fs.add(r, &format!("n{i:03}"), K::File);
+        }
+        for i in 0..20 {
+            let d = fs.add(r, &format!("d{i:02}"), K::Dir);
+            for j in 0..3 {
+                fs.add(d, &format!("m{j}"), K::File);
+            }
+        }
+        trees.push(("wide directory", fs));
+    }
+    {
+        let (mut fs, r) = base();
+        let t = fs.add(r, "t", K::Dir);
+        fs.add(t, "x", K::File);
+        fs.add(r, "l3", K::Link("t".into()));
+        fs.add(r, "l2", K::Link("l3".into()));
+        fs.add(r, "l1", K::Link("l2".into()));
+        fs.add(r, "k1", K::Link("k2".into()));
+        fs.add(r, "k2", K::Link("k1".into()));
+        let s = fs.add(r, "s", K::Dir);
+        fs.add(s, "l1", K::Link("../l1".into()));
+        trees.push(("link chains", fs));
+    }
+    let mins = [None, Some(0), Some(3), Some(5), Some(11), Some(12), Some(13)];
+    let maxs = [None, Some(0), Some(4), Some(11), Some(12), Some(13)];
+    for (ti, (name, fs)) in trees.iter().enumerate() {
+        if ctx.shard != (ti as u64 + 3) % ctx.nshards {
+            continue;
+        }
+        let sbx = ctx.sbx.clone();
+        crate::sandbox::clear_dir(&sbx);
+        if let Err(e) = crate::sandbox::materialize(fs, 0, &sbx).and_then(|_| crate::sandbox::validate(fs, 0, &sbx)) {
+            ctx.rep.machinery(format!("tree builder (scale slice, {name}): {e}"));
+            continue;
+        }
+        ctx.rep.count("scale_trees", 1);
+        for follow in [Follow::P, Follow::H, Follow::L] {
+            for min in mins {
+                for max in maxs {
+                    for depth in [false, true] {
+                        for roots in [vec!["r"], vec!["lr"]] {
+                            let cfg = Cfg { follow, follow_word: false, h_flag_too: false, min, max, depth, sorted: true, roots };
+                            let exp = expect(fs, &cfg);
+                            let argv = cfg.argv();
+                            let args: Vec<&str> = argv.iter().map(|s| s.as_str()).collect();
+                            let got = run_find(&args);
+                            ctx.rep.evaluations += 1;
+                            ctx.rep.nontrivial += 1;
+                            ctx.rep.count("scale_runs", 1);
+                            if let Some((sig, detail)) = judge(&cfg, &exp, &got) {
+                                let d = if detail.len() > 1500 { format!("{}...", &detail[..detail.char_indices().take_while(|(i, _)| *i < 1500).last().map(|(i, _)| i).unwrap_or(0)]) } else { detail };
+                                ctx.rep.violation(&sig, format!("scale slice, {name}; find {:?}\n{d}", argv), json!({"prop":"C02","scale":true}));
+                            }
+                        }
+                    }
+                }
+            }
+        }
+    }
 }
 
 // ---------------------------------------------------------------------------------------
@@ -565,6 +665,17 @@ fn visible(fs: &Fs, n: usize, path: String, unreadable: &[usize], out: &mut Vec<
 }
 
 fn replay(case: &Value, ctx: &mut Ctx) -> Option<String> {
+    if case["scale"] == true {
+        let (s0, n0) = (ctx.shard, ctx.nshards);
+        for k in 0..3 {
+            ctx.nshards = 3;
+            ctx.shard = k;
+            scale_slice(ctx);
+        }
+        ctx.shard = s0;
+        ctx.nshards = n0;
+        return ctx.rep.violations.keys().next().cloned();
+    }
     if case["kind"] == "fault" {
         println!("fault-slice cases are replayed by re-running the check (binary under uid 65534)");
         return None;
